@@ -40,6 +40,7 @@ type Pending struct {
 	N     int    // Readdir count argument
 	age   time.Duration // Stat: the ModTime presented is (now - age)
 	StatAt time.Time    // Stat: the instant "now" used for the fabricated ModTime
+	fault error          // read-side operations: injected backend fault (the operation is not executed)
 	rel   chan struct{}
 	Res   string // result class, filled when done
 	done  chan struct{}
@@ -153,9 +154,13 @@ func (s *Sched) WaitPending(a Actor, alt func() bool, timeout time.Duration) (*P
 
 // Release lets the pending operation run (a Stat presents a ModTime that is age old: the logical clock of the
 // scenario) and waits until it has been executed; returns its result class.
-func (s *Sched) Release(p *Pending, age time.Duration) string {
+func (s *Sched) Release(p *Pending, age time.Duration) string { return s.ReleaseFault(p, age, nil) }
+
+// ReleaseFault is Release with a backend fault: a Stat / Lstat / Open / Readdirnames is not executed and returns fault.
+func (s *Sched) ReleaseFault(p *Pending, age time.Duration, fault error) string {
 	s.mu.Lock()
 	p.age = age
+	p.fault = fault
 	delete(s.pend, p.Actor)
 	select {
 	case <-p.rel:
@@ -301,6 +306,11 @@ func (i *info) Sys() any { return nil }
 
 func (f *Fs) Stat(name string) (os.FileInfo, error) {
 	p := f.S.enter(f.actor(), "Stat", name, 0)
+	if p != nil && p.fault != nil {
+		err := &os.PathError{Op: "stat", Path: name, Err: p.fault}
+		f.S.leave(p, ErrClass(err))
+		return nil, err
+	}
 	fi, err := f.Fs.Stat(name)
 	res := ErrClass(err)
 	if err == nil && fi != nil {
@@ -321,6 +331,11 @@ func (f *Fs) Stat(name string) (os.FileInfo, error) {
 // LstatIfPossible makes the wrapper an afero.Lstater (filesystem.VFS.Lstat goes through it).
 func (f *Fs) LstatIfPossible(name string) (os.FileInfo, bool, error) {
 	p := f.S.enter(f.actor(), "Lstat", name, 0)
+	if p != nil && p.fault != nil {
+		err := &os.PathError{Op: "lstat", Path: name, Err: p.fault}
+		f.S.leave(p, ErrClass(err))
+		return nil, false, err
+	}
 	var fi os.FileInfo
 	var ok bool
 	var err error
@@ -343,6 +358,11 @@ func (f *Fs) LstatIfPossible(name string) (os.FileInfo, bool, error) {
 
 func (f *Fs) Open(name string) (afero.File, error) {
 	p := f.S.enter(f.actor(), "Open", name, 0)
+	if p != nil && p.fault != nil {
+		err := &os.PathError{Op: "open", Path: name, Err: p.fault}
+		f.S.leave(p, ErrClass(err))
+		return nil, err
+	}
 	h, err := f.Fs.Open(name)
 	f.S.leave(p, ErrClass(err))
 	if err != nil || h == nil {
@@ -370,6 +390,11 @@ type File struct {
 
 func (h *File) Readdirnames(n int) ([]string, error) {
 	p := h.fs.S.enter(h.fs.actor(), "Readdir", h.path, n)
+	if p != nil && p.fault != nil {
+		err := &os.PathError{Op: "readdirent", Path: h.path, Err: p.fault}
+		h.fs.S.leave(p, ErrClass(err))
+		return nil, err
+	}
 	names, err := h.File.Readdirnames(n)
 	res := ErrClass(err)
 	if res == "ok" || res == "eof" {
